@@ -297,6 +297,11 @@ pub fn run(ctx: &Ctx) -> i32 {
         for i in 0..quota {
             if i % 16 == 0 {
                 table = gen_table(rng, &TableCfg::default());
+                // several tables with very different priority ranges in one process and thread
+                if rng.chance(1, 4) {
+                    widen_priorities(&mut table, rng);
+                    st.bump("tables_with_negative_or_widely_spread_priorities");
+                }
                 install(&table);
             }
             let gcfg = GenCfg { lit_num: rng.below(9), un_num: rng.below(4), chain_num: rng.below(8), ..GenCfg::default() };
